@@ -72,7 +72,7 @@ def eqsView (key : Node → String) (eqs : List Eqn) (recurse : Bool) : EqsView 
 
 /-- the value of an attribute / variable that python knows is not `None` at that point (`equation` after
     `if equation is None: continue`) -/
-def theEqn (o : Option Eqn) : Eqn := o.getD ⟨0, [], [], none⟩
+def theEqn (o : Option Eqn) : Eqn := o.getD ⟨0, [], [], none, false⟩
 
 @[simp] theorem theEqn_some (e : Eqn) : theEqn (some e) = e := rfl
 
@@ -95,11 +95,17 @@ structure NumView where
   /-- `self.find_variables_and_derivatives([rhs])` of a substituted right-hand side: the model's input `refsNum` -/
   refsOfRhs : Eqn → List Node
 
-/-- `dummies` is a free parameter: which right-hand sides contain `Quantity` objects is not part of the C09 model -/
-def numView (eqs : List Eqn) (dummies : Eqn → List Nat) (gr : Except PyErr Graph) : NumView where
+/-- the `Quantity` atoms of a right-hand side, as far as the code asks: only the truthiness of the dict built from them
+    (`if subs_dict:`), which is the model's input `Eqn.hasQ` = `bool(equation.rhs.atoms(Quantity))` -/
+def quantityAtoms (e : Eqn) : List Nat := if e.hasQ then [0] else []
+
+@[simp] theorem quantityAtoms_isEmpty (e : Eqn) : (quantityAtoms e).isEmpty = !e.hasQ := by
+  unfold quantityAtoms; cases e.hasQ <;> rfl
+
+def numView (eqs : List Eqn) (gr : Except PyErr Graph) : NumView where
   graph := gr
   equationOf := eqnOf eqs
-  dummies := dummies
+  dummies := quantityAtoms
   xreplace e _ := e
   refsOfRhs e := e.refsNum
 
